@@ -6,6 +6,8 @@ Require Export BS.C01.Corr.
 Record case := mkCase {
   cprog : list node;
   ckilled : nat;     (* machines actually killed *)
+  cunplanned : nat;  (* machines the driver gave up on although the harness did not kill them
+                        (keepalive timed out on a starved host): losses outside the scenario's plan *)
   cfirst : obs;      (* the run (and scan) during which machines were killed *)
   cagain : obs       (* the same program run again in the same session after the losses stopped *)
 }.
@@ -37,7 +39,12 @@ Definition obs_safe (r : result) (o : obs) : bool :=
    still report an error for a machine that died under them). *)
 Definition ok (c : case) : bool :=
   let r := ref (cprog c) in
-  errc_eqb (oerr (cfirst c)) EOk && obs_safe r (cfirst c) && ok_rows_with r (cagain c).
+  if Nat.eqb (cunplanned c) 0
+  then errc_eqb (oerr (cfirst c)) EOk && obs_safe r (cfirst c) && ok_rows_with r (cagain c)
+  else
+    (* losses did not stop where the scenario planned them to: only the safety clause applies
+       (correct rows or an error, never other rows, never a hang) *)
+    obs_safe r (cfirst c) && obs_safe r (cagain c).
 
 Definition violations (cs : list case) : list nat := bad_indices ok cs.
 Definition mismatches (cs : list case) : list nat := violations cs.
